@@ -1106,6 +1106,15 @@ func (c ipamClient) AssignIP(ctx context.Context, args AssignIPArgs) error {
 		if err != nil {
 			if _, ok := err.(cerrors.ErrorResourceUpdateConflict); ok {
 				log.WithError(err).Debug("CAS error assigning IP - retry")
+				if args.HandleID != nil {
+					// The handle was incremented above for an assignment that did not
+					// happen; undo it, otherwise the retry increments it a second time.
+					cleanupCtx, cancel := contextForCleanup(ctx)
+					if err := c.decrementHandle(cleanupCtx, *args.HandleID, blockCIDR, 1, nil); err != nil {
+						log.WithError(err).Warn("Failed to decrement handle")
+					}
+					cancel()
+				}
 				continue
 			}
 
